@@ -246,8 +246,9 @@ def doubling_tail(points: t.List[t.Tuple[int, float]], floor_s: float) -> bool:
     return True
 
 
-def count_lines_child(entry_name: str, members: t.Sequence[t.Any], cpu_limit: int = 20) -> t.Optional[t.List[int]]:
-    """Line-event counts for each member, measured in a forked child with a CPU-time kill; None when killed."""
+def count_lines_child(entry_name: str, members: t.Sequence[t.Any], cpu_limit: int = 20) -> t.List[t.Optional[int]]:
+    """Line-event counts for each member, measured in a forked child with a CPU-time kill; None for the members
+    that were not finished when the child was killed."""
     r, w = os.pipe()
     pid = os.fork()
     if pid == 0:
@@ -275,5 +276,6 @@ def count_lines_child(entry_name: str, members: t.Sequence[t.Any], cpu_limit: in
     _, status = os.waitpid(pid, 0)
     vals = [int(x) for x in buf.decode().split()]
     if os.WIFSIGNALED(status) or len(vals) != len(members):
-        return None
+        # killed: the counts measured so far are still exact
+        return vals + [None] * (len(members) - len(vals))  # type: ignore[list-item]
     return vals
